@@ -188,7 +188,7 @@ let handle (line:string) : string =
       let c = flatten (late = "1") t in
       let root = (match (st c O).fs_type with FCompound -> true | _ -> false) in
       String.concat "" (List.map b2s [wf_coreb c && root; wf_initb c && root; wf_histb c && root; wf_fastb c && root;
-                                      core_treeb t; c01_treeb t; eq_chartb c; hist_treeb t; eq_tree_histb t; c01i_treeb t])
+                                      core_treeb t; c01_treeb t; eq_chartb c; hist_treeb t; eq_tree_histb t; c01i_treeb t; wf_histpb c && root])
   | Atom "tc" :: Atom late :: tree :: toks ->
       (* the completeness checker of TraceComplete.v on a trace with RET/CFG tokens; CFG carries the sids *)
       let c = flatten (late = "1") (tree_of tree) in
